@@ -16,7 +16,7 @@ struct Item {
 
 #[derive(Clone, Debug, PartialEq)]
 enum Op {
-    Add(u64, bool),
+    Add(u64, bool, bool), // id, voter, alt: announce a different address than the one registered before
     Remove(u64),
     Active(u64),
     Inactive(u64),
@@ -51,7 +51,7 @@ fn render(c: &Case) -> String {
         c.ops
             .iter()
             .map(|o| match o {
-                Op::Add(i, v) => format!("A{}{}", i, fl(*v)),
+                Op::Add(i, v, alt) => format!("{}{}{}", if *alt { 'B' } else { 'A' }, i, fl(*v)),
                 Op::Remove(i) => format!("R{}", i),
                 Op::Active(i) => format!("+{}", i),
                 Op::Inactive(i) => format!("-{}", i),
@@ -104,9 +104,9 @@ fn parse(line: &str) -> Option<Case> {
             let k = o.chars().next()?;
             let rest = &o[k.len_utf8()..];
             ops.push(match k {
-                'A' => {
+                'A' | 'B' => {
                     let (i, v) = parse_node(rest)?;
-                    Op::Add(i, v)
+                    Op::Add(i, v, k == 'B')
                 }
                 'R' => Op::Remove(rest.parse().ok()?),
                 '+' => Op::Active(rest.parse().ok()?),
@@ -195,7 +195,7 @@ fn run_real(rt: &tokio::runtime::Runtime, c: &Case) -> String {
         let mut obs = vec![observe(&m, true).await];
         for op in &c.ops {
             let ok = match op {
-                Op::Add(i, v) => m.add_node(*i, format!("10.0.1.{}:7000", i), *v).await.is_ok(),
+                Op::Add(i, v, alt) => m.add_node(*i, if *alt { format!("10.0.9.{}:7000", i) } else { format!("10.0.0.{}:7000", i) }, *v).await.is_ok(),
                 Op::Remove(i) => m.remove_node(*i).await.is_ok(),
                 Op::Active(i) => {
                     m.mark_active(*i).await;
@@ -235,7 +235,7 @@ fn nontrivial(c: &Case) -> bool {
     }
     for op in &c.ops {
         match op {
-            Op::Add(i, _) => {
+            Op::Add(i, _, _) => {
                 if present.contains(i) {
                     return true;
                 }
@@ -366,16 +366,16 @@ fn main() {
         }
         let mut mids: Vec<Vec<Op>> = vec![vec![]];
         for id in ids {
-            mids.push(vec![Op::Add(id, true)]);
-            mids.push(vec![Op::Add(id, false)]);
+            mids.push(vec![Op::Add(id, true, false)]);
+            mids.push(vec![Op::Add(id, false, false)]);
             mids.push(vec![Op::Remove(id)]);
         }
         if args.thorough() {
             mids.push(vec![Op::Update(vec![(1, true), (1, true), (2, true)])]);
             mids.push(vec![Op::Update(vec![(1, true), (1, false)])]);
             mids.push(vec![Op::Update(vec![])]);
-            mids.push(vec![Op::Add(1, true), Op::Add(1, false)]);
-            mids.push(vec![Op::Remove(1), Op::Add(1, true)]);
+            mids.push(vec![Op::Add(1, true, true), Op::Add(1, false, true)]);
+            mids.push(vec![Op::Remove(1), Op::Add(1, true, false)]);
         }
         let gray = sweep(3);
         for cfg in &cfgs {
@@ -390,6 +390,57 @@ fn main() {
                 }
             }
         }
+        // self-review block: continuations a one-step alphabet cannot reach — voter<->learner
+        // flips back and forth (same and changed address), removing / demoting / re-adding the
+        // leader, update_config with repeated ids followed by add/remove — on every add_node-only
+        // initial configuration of length <= 2 (and the length-3 ones in the thorough tier)
+        let mut deep: Vec<(Vec<Op>, bool)> = vec![]; // (ops, has its own leader op)
+        for id in [1u64, 2] {
+            for alt in [false, true] {
+                deep.push((vec![Op::Add(id, false, alt), Op::Add(id, true, alt)], false));
+                deep.push((vec![Op::Add(id, true, alt), Op::Add(id, false, alt)], false));
+                deep.push((vec![Op::Add(id, false, alt), Op::Add(id, true, alt), Op::Add(id, false, alt)], false));
+                deep.push((vec![Op::Add(id, true, alt), Op::Add(id, false, !alt), Op::Add(id, true, alt)], false));
+                deep.push((vec![Op::Role(id, 'L'), Op::Add(id, false, alt)], true));
+                deep.push((vec![Op::Role(id, 'L'), Op::Add(id, true, alt)], true));
+            }
+            deep.push((vec![Op::Role(id, 'L'), Op::Remove(id)], true));
+            deep.push((vec![Op::Role(id, 'L'), Op::Remove(id), Op::Add(id, true, false)], true));
+            deep.push((vec![Op::Role(id, 'L'), Op::Role(3, 'C'), Op::Remove(id), Op::Role(3, 'L')], true));
+            deep.push((vec![Op::Role(id, 'L'), Op::Role(id, 'F')], true));
+        }
+        for dup in [
+            vec![(1u64, true), (1, true), (2, true)],
+            vec![(1, true), (1, false)],
+            vec![(1, false), (1, true), (2, true), (2, true), (3, true)],
+            vec![(2, true), (1, true), (2, true)],
+            vec![],
+        ] {
+            deep.push((vec![Op::Update(dup.clone())], false));
+            deep.push((vec![Op::Update(dup.clone()), Op::Add(1, false, false)], false));
+            deep.push((vec![Op::Update(dup.clone()), Op::Add(1, true, true)], false));
+            deep.push((vec![Op::Update(dup.clone()), Op::Remove(1)], false));
+            deep.push((vec![Op::Update(dup.clone()), Op::Remove(2), Op::Add(2, true, false)], false));
+        }
+        let deep_len = if args.thorough() { 3 } else { 2 };
+        let mut n_deep = 0;
+        for cfg in cfgs.iter().filter(|c| c.len() <= deep_len && c.iter().all(|i| i.add)) {
+            for (mid, own_leader) in &deep {
+                for leader in 0..=3u64 {
+                    if *own_leader && leader > 0 {
+                        continue;
+                    }
+                    let mut ops = mid.clone();
+                    if leader > 0 {
+                        ops.push(Op::Role(leader, 'L'));
+                    }
+                    ops.extend(gray.iter().cloned());
+                    cases.push(Case { cfg: cfg.clone(), rf: 1, ops });
+                    n_deep += 1;
+                }
+            }
+        }
+        rep.count_n("deep_continuation_cases(flips,leader removal,update_config duplicates)", n_deep);
         rep.exhaustive = true;
         rep.exhaustive_note = format!(
             "{} initial configurations (all add_node sequences of length <= 3 and all add/raw-push sequences of length <= {} over ids 1-3 x voter/learner) \
@@ -415,7 +466,7 @@ fn main() {
                 let span = if rng.chance(1, 10) { 6 } else { 5 };
                 let id = 1 + rng.below(span);
                 ops.push(match rng.below(12) {
-                    0..=3 => Op::Add(id, rng.chance(2, 3)),
+                    0..=3 => Op::Add(id, rng.chance(2, 3), rng.chance(1, 3)),
                     4..=5 => Op::Remove(id),
                     6 => Op::Active(id),
                     7 => Op::Inactive(id),
